@@ -16,6 +16,7 @@ FIX = [  # (substring of commit subject, property, key at the time, what failed)
  ('ReverseTranslate skips', 'C10', 'panic:unexported-field-in-slice-elem', 'non-empty slice/array of structs with an unexported field panicked (index out of range) in every decoder chain'),
  ('environment variable names', 'C11', 'env-name-single-letter-word', 'N.M looked up as NM: single-letter path components lost their word boundary'),
  ('standard-library flag source accepts', 'C12', 'panic:flag-net.IP', '--ip=10.0.0.1 on a net.IP leaf panicked in reflect.Value.Convert'),
+ ('accepts flags for user-defined complex types', 'C12', 'panic:sources/flag.(*Set).Value.func2', 'std flag source panicked (Convert *complex128 -> named type) when a flag for a named complex type was given'),
  ('integral-slice parsers', 'C15', 'integral-slice-empty', 'empty integer slice text "" did not parse back'),
  ('map parsing accepts', 'C15', 'map-empty-key', '"":"v" failed with unexpected colon'),
  ('parse.String returns', 'C16', 'panic:named-scalar-env', 'type Level uint8 via env panicked (top level) or was silently dropped (nested)'),
